@@ -244,7 +244,6 @@ func c07LimitFragment(r *Repo, body *ast.BlockStmt, callee string) ([]ast.Stmt, 
 func init() {
 	register(Extractor{Module: "FactsC07IR", Imports: []string{"EgVerif.Model.Payload"}, Run: func(r *Repo, w *Lean) error {
 		w.Line("set_option linter.unusedVariables false")
-		w.Line("set_option autoImplicit false")
 		w.Line("open EgVerif.Payload")
 		w.Line("")
 		// ---- Request.FetchPayload
